@@ -142,7 +142,55 @@ def make_evaluator(prog, subqueries):
         if endp is not None:
             endp.store(Ptr(p.buf, p.off + used))
         return min(val, (1 << 64) - 1)
+    def cstr_of(x):
+        from cxxobj import Buf
+        p_ = Ptr(x, 0) if isinstance(x, Buf) else x
+        cells, out, k = p_.cells(), "", p_.off
+        while k < len(cells) and cells[k] not in (0, None):
+            out += chr(cells[k] & 0xff)
+            k += 1
+        return out
+
+    def sprintf(ev, o, a):
+        """sprintf (buf, fmt, ...) for %c %d %u %x %02x %#x %s; the destination is bounds-checked"""
+        import re as _re
+        from cxxobj import Buf, OutOfBounds
+        fmt, args, out, k = cstr_of(a[1]), list(a[2:]), "", 0
+        for m in _re.finditer(r"%(#?)(0?)(\d*)([cduxs])|%%|[^%]+", fmt):
+            t = m.group(0)
+            if t == "%%":
+                out += "%"
+            elif t.startswith("%") and m.group(4):
+                v = args[k] if k < len(args) else 0
+                k += 1
+                conv_ = m.group(4)
+                if conv_ == "s":
+                    piece = cstr_of(v)
+                elif conv_ == "c":
+                    piece = chr(int(v) & 0xff)
+                else:
+                    iv = int(v)
+                    if conv_ in ("x", "u") and iv < 0:
+                        iv += 1 << 32          # an int argument printed as unsigned
+                    piece = ("%x" % iv) if conv_ == "x" else ("%d" % iv)
+                    if m.group(1) and conv_ == "x" and iv != 0:
+                        piece = "0x" + piece
+                    if m.group(3):
+                        piece = piece.rjust(int(m.group(3)), "0" if m.group(2) else " ")
+                out += piece
+            else:
+                out += t
+        dst = Ptr(a[0], 0) if isinstance(a[0], Buf) else a[0]
+        cells = dst.cells()
+        if dst.off + len(out) + 1 > len(cells):
+            raise OutOfBounds("sprintf writes %d bytes (\"%s\" and the terminator) into a buffer of %d" % (len(out) + 1, out, len(cells) - dst.off))
+        for n_, ch in enumerate(out + "\0"):
+            cells[dst.off + n_] = ord(ch)
+        return len(out)
     hooks = {
+        "sprintf": sprintf,
+        "isprint": lambda ev, o, a: 1 if 0x20 <= (int(a[0]) & 0xff if int(a[0]) >= 0 else -1) <= 0x7e else 0,
+        "std::isprint": lambda ev, o, a: 1 if 0x20 <= (int(a[0]) & 0xff if int(a[0]) >= 0 else -1) <= 0x7e else 0,
         "parse_subquery": subq,
         "memcpy": memcpy,
         "strtoul": strtoul,
